@@ -1,6 +1,684 @@
-//! C03 — not built yet.
-use crate::ev::Tier;
-pub fn main(_tier: Tier, _replay: Option<serde_json::Value>) -> i32 {
-    eprintln!("C03: check not built yet");
-    2
+//! C03 — the verifier decides exactly the protocol's equation and transcript:
+//! real `Verifier::verify_with_version` vs the reference verifier M2 on every
+//! explored (verifier, proof, public inputs) triple.
+
+use std::panic::{catch_unwind, AssertUnwindSafe};
+use std::sync::Arc;
+
+use dusk_bls12_381::{G1Affine, G1Projective};
+use dusk_bytes::Serializable;
+use dusk_jubjub::{JubJubScalar, GENERATOR_EXTENDED};
+use dusk_plonk::prelude::*;
+use dusk_plonk::verif::Snapshot;
+use serde_json::{json, Value};
+
+use crate::ev::{Run, Tier};
+use crate::fe::*;
+use crate::m2::{self, VerifierData, Version};
+use crate::prog::Prog;
+
+pub const VERSIONS: [Version; 3] = [Version::V3, Version::V2, Version::V1];
+
+pub fn pv(v: Version) -> PlonkVersion {
+    match v {
+        Version::V1 => PlonkVersion::V1,
+        Version::V2 => PlonkVersion::V2,
+        Version::V3 => PlonkVersion::V3,
+    }
+}
+
+pub fn to_hex(b: &[u8]) -> String {
+    let mut s = String::with_capacity(b.len() * 2);
+    for x in b {
+        s.push_str(&format!("{:02x}", x));
+    }
+    s
+}
+pub fn from_hex_bytes(s: &str) -> Vec<u8> {
+    let d: Vec<u8> = s.bytes().map(|c| (c as char).to_digit(16).expect("hex digit") as u8).collect();
+    d.chunks(2).map(|p| (p[0] << 4) | p[1]).collect()
+}
+
+// ---------------------------------------------------------------------------
+// Circuits
+// ---------------------------------------------------------------------------
+
+pub struct Circ {
+    pub name: String,
+    pub prog: Prog,
+    pub prover: Prover,
+    pub verifier: Verifier,
+    pub vbytes: Vec<u8>,
+    pub vd: VerifierData,
+    /// snapshot of the compile run
+    pub snap: Snapshot,
+    /// commit-key points (for the legacy-profile proof derivation)
+    pub powers: Arc<Vec<G1Affine>>,
+}
+
+/// Degree of the public parameters needed for a circuit of `constraints` rows.
+pub fn trim_size(constraints: usize) -> usize {
+    (constraints + 6).next_power_of_two()
+}
+
+pub fn compile(name: &str, prog: &Prog, label: &[u8]) -> Result<Circ, String> {
+    let snap0 = prog.run().map_err(|e| format!("{}: circuit does not build: {:?}", name, e))?;
+    let tn = trim_size(snap0.gates.len());
+    let pp = crate::setup::pp(tn.max(64));
+    let (prover, verifier) = Compiler::compile_with_circuit(&pp, label, prog).map_err(|e| format!("{}: compile: {:?}", name, e))?;
+    let snap = prog.last_snapshot().ok_or("no snapshot")?;
+    let vbytes = verifier.to_bytes();
+    let vd = m2::parse_verifier(&vbytes).map_err(|e| format!("{}: M2 cannot parse Verifier::to_bytes(): {}", name, e))?;
+    let powers = dusk_plonk::verif::kernels::trim(&pp, tn).map_err(|e| format!("{}: trim: {:?}", name, e))?.powers();
+    Ok(Circ { name: name.to_string(), prog: prog.clone(), prover, verifier, vbytes, vd, snap, powers: Arc::new(powers) })
+}
+
+/// The named circuits of C03 (public composer components only).
+pub fn circuit_progs() -> Vec<(&'static str, Prog)> {
+    let mut v: Vec<(&'static str, Prog)> = Vec::new();
+    // arithmetic only, two public inputs, the second one zero-valued
+    v.push((
+        "arith2pi",
+        Prog::new(|c| {
+            let a = c.append_witness(fe(3));
+            let b = c.append_witness(fe(5));
+            let m = c.gate_mul(Constraint::new().mult(1).a(a).b(b));
+            let s = c.gate_add(Constraint::new().left(1).right(1).a(a).b(m));
+            c.assert_equal_constant(s, fe(3), Some(fe(15)));
+            let z = c.gate_add(Constraint::new().left(1).right(neg1()).a(a).b(a));
+            c.assert_equal_constant(z, fe(0), Some(fe(0)));
+            Ok(())
+        }),
+    ));
+    // range gadget
+    v.push((
+        "range10",
+        Prog::new(|c| {
+            let w = c.append_public(fe(693));
+            c.component_range_bits::<10>(w);
+            Ok(())
+        }),
+    ));
+    // logic gadget
+    v.push((
+        "xor4",
+        Prog::new(|c| {
+            let a = c.append_witness(fe(0xa5));
+            let b = c.append_witness(fe(0x3c));
+            let x = c.append_logic_xor::<4>(a, b);
+            c.assert_equal_constant(x, fe(0), Some(fe(0xa5 ^ 0x3c)));
+            Ok(())
+        }),
+    ));
+    // fixed-base + variable-base widgets
+    v.push((
+        "ecc",
+        Prog::new(|c| {
+            let s = c.append_witness(JubJubScalar::from(7u64));
+            let p = c.component_mul_generator(s, GENERATOR_EXTENDED)?;
+            let q = c.component_add_point(p, p);
+            c.assert_equal_public_point(q.into(), GENERATOR_EXTENDED * JubJubScalar::from(14u64))?;
+            Ok(())
+        }),
+    ));
+    // mixed: range + and + arithmetic + three public inputs
+    v.push((
+        "mixed",
+        Prog::new(|c| {
+            let a = c.append_public(fe(37));
+            let b = c.append_witness(fe(11));
+            c.component_range_bits::<6>(a);
+            let x = c.append_logic_and::<3>(a, b);
+            let m = c.gate_mul(Constraint::new().mult(1).a(x).b(b).constant(fe(2)));
+            c.assert_equal_constant(m, fe(0), Some(fe((37 & 11) * 11 + 2)));
+            let d = c.gate_add(Constraint::new().left(1).right(neg1()).fourth(1).a(a).b(a).d(b).public(fe(5)));
+            c.assert_equal_constant(d, fe(16), None);
+            Ok(())
+        }),
+    ));
+    // no public inputs
+    v.push((
+        "nopi",
+        Prog::new(|c| {
+            let a = c.append_witness(fe(3));
+            let b = c.append_witness(fe(5));
+            let m = c.gate_mul(Constraint::new().mult(1).a(a).b(b));
+            c.assert_equal_constant(m, fe(15), None);
+            Ok(())
+        }),
+    ));
+    v
+}
+
+pub fn circuit_names(tier: Tier) -> Vec<&'static str> {
+    match tier {
+        Tier::Quick => vec!["arith2pi", "range10", "xor4"],
+        Tier::Thorough => vec!["arith2pi", "range10", "xor4", "ecc", "mixed", "nopi"],
+    }
+}
+
+// ---------------------------------------------------------------------------
+// Proofs
+// ---------------------------------------------------------------------------
+
+#[derive(Clone)]
+pub struct Honest {
+    pub circ: usize,
+    pub ver: Version,
+    /// RNG stream the proof was made with
+    pub stream: u64,
+    pub bytes: Vec<u8>,
+    pub pis: Vec<Fe>,
+    /// false for a V1 entry whose derivation failed (the bytes are then the V2
+    /// proof, a placeholder both sides reject)
+    pub ok: bool,
+}
+
+/// Honest proof through the real prover (V2, V3).
+pub fn prove_real(c: &Circ, ver: Version, stream: u64) -> Result<(Vec<u8>, Vec<Fe>), String> {
+    let mut rng = crate::rng::ScriptedRng::base(seed(), 300 + stream);
+    let prog = c.prog.clone();
+    let r = catch_unwind(AssertUnwindSafe(|| c.prover.prove_with_version(&mut rng, &prog, pv(ver))));
+    match r {
+        Err(e) => Err(format!("{}: prover panicked: {}", c.name, crate::par::panic_msg(e))),
+        Ok(Err(e)) => Err(format!("{}: prove_with_version({}) failed: {:?}", c.name, ver.name(), e)),
+        Ok(Ok((p, pis))) => Ok((p.to_bytes().to_vec(), pis)),
+    }
+}
+
+/// The real prover cannot make legacy-profile (V1) proofs. A V1 proof is the
+/// V2 proof whose W_z does not carry the four selector openings
+/// (v^8 q_arith, v^9 q_c, v^10 q_l, v^11 q_r): subtract their quotient
+/// commitments, computed here from the compiled rows and the commit key.
+pub fn derive_v1(c: &Circ, v2_bytes: &[u8], pis: &[Fe]) -> Result<Vec<u8>, String> {
+    let mut p = m2::parse_proof(v2_bytes)?;
+    let ch = m2::challenges(&c.vd, &p, pis, Version::V2);
+    let n = m2::domain_size(c.vd.n);
+    if c.powers.len() < n {
+        return Err("commit key shorter than the domain".into());
+    }
+    let elems = m2::domain_elements(n);
+    let n_inv = inv(fe(n as u64));
+    let mut w = G1Projective::from(p.comms[m2::W_Z_COMM]);
+    let mut vpow = ch.v;
+    for _ in 0..7 {
+        vpow *= ch.v; // v^8
+    }
+    for (sel, ev) in [
+        (crate::m1::QARITH, m2::Q_ARITH_EVAL),
+        (crate::m1::QC, m2::Q_C_EVAL),
+        (crate::m1::QL, m2::Q_L_EVAL),
+        (crate::m1::QR, m2::Q_R_EVAL),
+    ] {
+        let mut col = vec![zero(); n];
+        for (i, g) in c.snap.gates.iter().enumerate() {
+            col[i] = g.q[sel];
+        }
+        // inverse DFT by definition
+        let mut coeffs = vec![zero(); n];
+        for k in 0..n {
+            let mut acc = zero();
+            for j in 0..n {
+                if col[j] != zero() {
+                    acc += col[j] * elems[(n - (j * k) % n) % n];
+                }
+            }
+            coeffs[k] = acc * n_inv;
+        }
+        // value at z (Horner) must be the evaluation the proof carries
+        let mut at_z = zero();
+        for k in (0..n).rev() {
+            at_z = at_z * ch.z + coeffs[k];
+        }
+        if at_z != p.evals[ev] {
+            return Err(format!("selector polynomial rebuilt from the rows does not evaluate to {}", m2::EVAL_NAMES[ev]));
+        }
+        // (q(X) - q(z)) / (X - z) by synthetic division
+        let mut quo = vec![zero(); n.saturating_sub(1)];
+        let mut carry = zero();
+        for k in (1..n).rev() {
+            carry = coeffs[k] + ch.z * carry;
+            quo[k - 1] = carry;
+        }
+        let mut comm = G1Projective::identity();
+        for (k, q) in quo.iter().enumerate() {
+            if *q != zero() {
+                comm += G1Projective::from(c.powers[k]) * *q;
+            }
+        }
+        w -= comm * vpow;
+        vpow *= ch.v;
+    }
+    p.comms[m2::W_Z_COMM] = G1Affine::from(w);
+    Ok(m2::proof_to_bytes(&p))
+}
+
+/// Two honest proofs (RNG streams 0, 1) per version for a circuit. A failed
+/// V1 derivation (M2's challenges are not the ones the prover used) is returned
+/// as a note and a placeholder, so that the comparison of the V2/V3 proofs
+/// still runs and reports the underlying disagreement.
+pub fn honest_proofs(ci: usize, c: &Circ, notes: &mut Vec<String>) -> Result<Vec<Honest>, String> {
+    let mut out = Vec::new();
+    for stream in 0..2u64 {
+        let (b3, p3) = prove_real(c, Version::V3, stream)?;
+        out.push(Honest { circ: ci, ver: Version::V3, stream, bytes: b3, pis: p3, ok: true });
+        let (b2, p2) = prove_real(c, Version::V2, stream)?;
+        let (b1, ok) = match derive_v1(c, &b2, &p2) {
+            Ok(b) => (b, true),
+            Err(e) => {
+                notes.push(format!("{}: legacy (V1) proof derivation failed: {}", c.name, e));
+                (b2.clone(), false)
+            }
+        };
+        out.push(Honest { circ: ci, ver: Version::V2, stream, bytes: b2, pis: p2.clone(), ok: true });
+        out.push(Honest { circ: ci, ver: Version::V1, stream, bytes: b1, pis: p2, ok });
+    }
+    Ok(out)
+}
+
+// ---------------------------------------------------------------------------
+// The two sides
+// ---------------------------------------------------------------------------
+
+#[derive(Clone, Debug, PartialEq, Eq)]
+pub enum Side {
+    Accept,
+    Reject,
+    /// the side's proof decoder refused the bytes
+    Undecodable,
+    Panic(String),
+}
+impl Side {
+    pub fn name(&self) -> &'static str {
+        match self {
+            Side::Accept => "accept",
+            Side::Reject => "reject",
+            Side::Undecodable => "undecodable",
+            Side::Panic(_) => "panic",
+        }
+    }
+    pub fn accepts(&self) -> bool {
+        *self == Side::Accept
+    }
+    pub fn decoded(&self) -> bool {
+        matches!(self, Side::Accept | Side::Reject)
+    }
+}
+
+pub fn real_side(verifier: &Verifier, bytes: &[u8], pis: &[Fe], ver: Version) -> Side {
+    let r = catch_unwind(AssertUnwindSafe(|| {
+        let arr: Result<[u8; 1008], _> = bytes.try_into();
+        let Ok(arr) = arr else { return Side::Undecodable };
+        match Proof::from_bytes(&arr) {
+            Err(_) => Side::Undecodable,
+            Ok(p) => match verifier.verify_with_version(&p, pis, pv(ver)) {
+                Ok(()) => Side::Accept,
+                Err(_) => Side::Reject,
+            },
+        }
+    }));
+    match r {
+        Ok(s) => s,
+        Err(e) => Side::Panic(crate::par::panic_msg(e)),
+    }
+}
+
+pub fn m2_side(vd: &VerifierData, bytes: &[u8], pis: &[Fe], ver: Version) -> Side {
+    match m2::parse_proof(bytes) {
+        Err(_) => Side::Undecodable,
+        Ok(p) => {
+            if m2::verify(vd, &p, pis, ver) {
+                Side::Accept
+            } else {
+                Side::Reject
+            }
+        }
+    }
+}
+
+// ---------------------------------------------------------------------------
+// Triples
+// ---------------------------------------------------------------------------
+
+#[derive(Clone, Debug)]
+pub enum Mutn {
+    None,
+    Flip(usize),
+    /// replace the bytes of a proof field
+    Field(usize, Vec<u8>),
+}
+
+#[derive(Clone, Debug)]
+pub struct Triple {
+    /// verifier (circuit index)
+    pub vcirc: usize,
+    pub ver: Version,
+    /// index of the honest proof the bytes derive from
+    pub base: usize,
+    pub m: Mutn,
+    /// `None` = the base proof's public inputs
+    pub pis: Option<Vec<Fe>>,
+    /// coarse class for signatures / histogram
+    pub class: String,
+    /// field or edit name for signatures
+    pub what: String,
+}
+
+pub struct Outcome {
+    pub real: Side,
+    pub m2: Side,
+    pub hash: u64,
+}
+
+fn materialise(t: &Triple, honest: &[Honest]) -> (Vec<u8>, Vec<Fe>) {
+    let h = &honest[t.base];
+    let mut b = h.bytes.clone();
+    match &t.m {
+        Mutn::None => {}
+        Mutn::Flip(bit) => b[bit / 8] ^= 1 << (bit % 8),
+        Mutn::Field(f, nb) => {
+            let (lo, hi) = m2::field_range(*f);
+            b[lo..hi].copy_from_slice(nb);
+        }
+    }
+    (b, t.pis.clone().unwrap_or_else(|| h.pis.clone()))
+}
+
+pub fn evaluate(t: &Triple, circs: &[Circ], honest: &[Honest]) -> Outcome {
+    let (b, pis) = materialise(t, honest);
+    let c = &circs[t.vcirc];
+    let real = real_side(&c.verifier, &b, &pis, t.ver);
+    let m2s = m2_side(&c.vd, &b, &pis, t.ver);
+    let mut h = fnv(&b);
+    h = (h ^ t.vcirc as u64).wrapping_mul(0x100000001b3);
+    h = (h ^ t.ver as u64).wrapping_mul(0x100000001b3);
+    for p in &pis {
+        h = fnv_fe(h, p);
+    }
+    Outcome { real, m2: m2s, hash: h }
+}
+
+fn case_json(t: &Triple, circs: &[Circ], honest: &[Honest]) -> Value {
+    let (b, pis) = materialise(t, honest);
+    json!({
+        "circuit": circs[t.vcirc].name,
+        "version": t.ver.name(),
+        "class": t.class,
+        "what": t.what,
+        "proof_of": circs[honest[t.base].circ].name,
+        "proof_version": honest[t.base].ver.name(),
+        "proof_hex": to_hex(&b),
+        "pis": pis.iter().map(hex).collect::<Vec<_>>(),
+    })
+}
+
+/// The honest proof of (circuit, version, stream).
+fn find(honest: &[Honest], circ: usize, ver: Version, stream: u64) -> usize {
+    honest.iter().position(|h| h.circ == circ && h.ver == ver && h.stream == stream).expect("honest proof exists")
+}
+
+/// Which (circuit, version) pairs get all 8064 flips: every pair in the thorough
+/// tier; in the quick tier every circuit under V3 plus the first circuit under
+/// V1, whose batched opening differs (the other pairs get one flipped bit in
+/// each of the 1008 bytes).
+pub fn all_flips(tier: Tier, ci: usize, ver: Version) -> bool {
+    tier == Tier::Thorough || ver == Version::V3 || (ci == 0 && ver == Version::V1)
+}
+
+pub fn enumerate(tier: Tier, circs: &[Circ], honest: &[Honest]) -> Vec<Triple> {
+    let mut out = Vec::new();
+    let gen = G1Affine::generator().to_compressed().to_vec();
+    let ident = G1Affine::identity().to_compressed().to_vec();
+    for ci in 0..circs.len() {
+        for ver in VERSIONS {
+            let b0 = find(honest, ci, ver, 0);
+            let b1 = find(honest, ci, ver, 1);
+            let t0 = Triple { vcirc: ci, ver, base: b0, m: Mutn::None, pis: None, class: "honest".into(), what: circs[ci].name.clone() };
+            // (a) honest proofs
+            out.push(t0.clone());
+            out.push(Triple { base: b1, ..t0.clone() });
+            // (b) every single-bit flip
+            for bit in 0..m2::PROOF_SIZE * 8 {
+                if !all_flips(tier, ci, ver) && bit % 8 != (bit / 8) % 8 {
+                    continue;
+                }
+                out.push(Triple { m: Mutn::Flip(bit), class: "flip".into(), what: m2::field_name(m2::field_of_byte(bit / 8)).into(), ..t0.clone() });
+            }
+            // (c) field replacements
+            let hb = &honest[b0].bytes;
+            let other = &honest[b1].bytes;
+            for f in 0..m2::N_FIELDS {
+                let (lo, hi) = m2::field_range(f);
+                let name = m2::field_name(f);
+                let kind: Vec<usize> = if f < 11 { (0..11).collect() } else { (11..26).collect() };
+                for g in kind {
+                    if g != f {
+                        let (glo, ghi) = m2::field_range(g);
+                        out.push(Triple { m: Mutn::Field(f, hb[glo..ghi].to_vec()), class: "repl-same-proof".into(), what: name.into(), ..t0.clone() });
+                    }
+                }
+                out.push(Triple { m: Mutn::Field(f, other[lo..hi].to_vec()), class: "repl-other-proof".into(), what: name.into(), ..t0.clone() });
+                if f < 11 {
+                    out.push(Triple { m: Mutn::Field(f, gen.clone()), class: "repl-generator".into(), what: name.into(), ..t0.clone() });
+                    out.push(Triple { m: Mutn::Field(f, ident.clone()), class: "repl-identity".into(), what: name.into(), ..t0.clone() });
+                } else {
+                    let val = m2::decode_fe(&hb[lo..hi]).expect("honest evaluation decodes");
+                    out.push(Triple { m: Mutn::Field(f, zero().to_bytes().to_vec()), class: "repl-zero".into(), what: name.into(), ..t0.clone() });
+                    out.push(Triple { m: Mutn::Field(f, (val + one()).to_bytes().to_vec()), class: "repl-plus1".into(), what: name.into(), ..t0.clone() });
+                    out.push(Triple { m: Mutn::Field(f, (val - one()).to_bytes().to_vec()), class: "repl-minus1".into(), what: name.into(), ..t0.clone() });
+                }
+            }
+            // (d) verifier x proof matrix: proofs of every other circuit
+            for cj in 0..circs.len() {
+                if cj != ci {
+                    out.push(Triple { base: find(honest, cj, ver, 0), class: "matrix".into(), what: format!("proof-of-{}", circs[cj].name), ..t0.clone() });
+                }
+            }
+            // cross-version: the proofs made for the other versions
+            for pver in VERSIONS {
+                if pver != ver {
+                    out.push(Triple { base: find(honest, ci, pver, 0), class: "xver".into(), what: format!("proof-{}", pver.name()), ..t0.clone() });
+                }
+            }
+            // (e) public-input edits
+            let pis = honest[b0].pis.clone();
+            let mut edits: Vec<(String, Vec<Fe>)> = Vec::new();
+            for i in 0..pis.len() {
+                let mut p = pis.clone();
+                p[i] += one();
+                edits.push(("plus1".into(), p));
+                let mut p = pis.clone();
+                p[i] -= one();
+                edits.push(("minus1".into(), p));
+                let mut p = pis.clone();
+                p.remove(i);
+                edits.push(("dropped".into(), p));
+                for j in i + 1..pis.len() {
+                    let mut p = pis.clone();
+                    p.swap(i, j);
+                    edits.push(("swapped".into(), p));
+                }
+            }
+            let mut p = pis.clone();
+            p.push(zero());
+            edits.push(("extended-zero".into(), p));
+            let mut p = pis.clone();
+            p.push(pis.last().copied().unwrap_or(one()));
+            edits.push(("extended-dup".into(), p));
+            let mut p = pis.clone();
+            p.insert(0, zero());
+            edits.push(("prepended-zero".into(), p));
+            for (nm, p) in edits {
+                out.push(Triple { pis: Some(p), class: "pi-edit".into(), what: nm, ..t0.clone() });
+            }
+        }
+    }
+    out
+}
+
+// ---------------------------------------------------------------------------
+// Driver
+// ---------------------------------------------------------------------------
+
+pub fn build(names: &[&str], label: &[u8]) -> Result<(Vec<Circ>, Vec<Honest>, Vec<String>), String> {
+    let progs = circuit_progs();
+    let mut circs = Vec::new();
+    for n in names {
+        let (_, p) = progs.iter().find(|(k, _)| k == n).ok_or(format!("unknown circuit {}", n))?;
+        circs.push(compile(n, p, label)?);
+    }
+    let mut honest = Vec::new();
+    let mut notes = Vec::new();
+    for (i, c) in circs.iter().enumerate() {
+        honest.extend(honest_proofs(i, c, &mut notes)?);
+    }
+    Ok((circs, honest, notes))
+}
+
+pub fn main(tier: Tier, replay: Option<Value>) -> i32 {
+    let mut run = Run::new("C03", tier, "model_checking");
+    run.rule = "triples = (verifier of circuit c, version, proof bytes, public inputs): honest proofs (two RNG scripts; V1 proofs derived from V2 proofs by removing the selector openings from W_z), every single-bit flip of the 1008 proof bytes (quick tier: all 8064 flips for the pairs listed in bounds.all_8064_flips_for, one bit in every byte for the other pairs), every proof field replaced by every other field of its kind / the same field of a second proof / generator, identity / 0, value+-1, every other circuit's proof, the proofs of the other versions, public-input edits; each triple is decided by the real verifier (Proof::from_bytes + verify_with_version) and by the reference verifier M2 (bytes in, two pairings out); non-trivial = distinct triples on which both sides decoded the proof and ran their full decision".into();
+    if let Err(e) = m2::selfcheck() {
+        run.machinery(format!("M2 self-check: {}", e));
+        return run.finish();
+    }
+    let names: Vec<&str> = if replay.is_some() { circuit_names(Tier::Thorough) } else { circuit_names(tier) };
+    let (circs, honest, notes) = match build(&names, b"c03") {
+        Ok(x) => x,
+        Err(e) => {
+            run.machinery(e);
+            return run.finish();
+        }
+    };
+
+    if let Some(r) = replay {
+        run.set_replay_mode();
+        let case = &r["case"];
+        let cname = case["circuit"].as_str().unwrap_or("");
+        let Some(c) = circs.iter().find(|c| c.name == cname) else {
+            run.machinery(format!("replay: unknown circuit {}", cname));
+            return run.finish();
+        };
+        let ver = match case["version"].as_str().unwrap_or("") {
+            "V1" => Version::V1,
+            "V2" => Version::V2,
+            _ => Version::V3,
+        };
+        let bytes = from_hex_bytes(case["proof_hex"].as_str().unwrap_or(""));
+        let pis: Vec<Fe> = case["pis"].as_array().map(|a| a.iter().map(|x| from_hex(x.as_str().unwrap_or("0"))).collect()).unwrap_or_default();
+        let (r1, m1) = (real_side(&c.verifier, &bytes, &pis, ver), m2_side(&c.vd, &bytes, &pis, ver));
+        let (r2, m2b) = (real_side(&c.verifier, &bytes, &pis, ver), m2_side(&c.vd, &bytes, &pis, ver));
+        if r1 != r2 || m1 != m2b {
+            run.machinery("replay diverged between two executions".into());
+        }
+        println!("replay {} {}: real={:?} m2={:?}", cname, ver.name(), r1, m1);
+        if r1.accepts() != m1.accepts() || r1.decoded() != m1.decoded() || matches!(r1, Side::Panic(_)) {
+            run.violation("replay", "real verifier and M2 still disagree", case.clone());
+        }
+        return run.finish();
+    }
+
+    let triples = enumerate(tier, &circs, &honest);
+    run.bound("circuits", json!(circs.iter().map(|c| json!({"name": c.name, "constraints": c.vd.constraints, "domain": m2::domain_size(c.vd.n), "public_inputs": c.vd.pi_rows.len()})).collect::<Vec<_>>()));
+    run.bound("versions", json!(["V3", "V2", "V1"]));
+    run.bound("triples", json!(triples.len()));
+    run.bound("bit_flips_per_proof", json!(m2::PROOF_SIZE * 8));
+    run.bound(
+        "all_8064_flips_for",
+        json!((0..circs.len()).flat_map(|ci| VERSIONS.iter().filter(move |v| all_flips(tier, ci, **v)).map(move |v| (ci, *v))).map(|(ci, v)| format!("{}/{}", circs[ci].name, v.name())).collect::<Vec<_>>()),
+    );
+    run.states = (circs.len() * VERSIONS.len()) as u64;
+
+    let outs = crate::par::par_map(&triples, |t| evaluate(t, &circs, &honest));
+
+    let mut accepts = std::collections::BTreeMap::<(usize, &'static str), u64>::new();
+    let mut decodable_rejected_flip = [0u64; m2::N_FIELDS];
+    let mut class_hist = std::collections::BTreeMap::<String, [u64; 3]>::new();
+    for (t, o) in triples.iter().zip(outs) {
+        run.transitions += 1;
+        run.evaluations += 1;
+        let o = match o {
+            Ok(o) => o,
+            Err(p) => {
+                run.machinery(format!("harness panic on {}/{}: {}", t.class, t.what, p));
+                continue;
+            }
+        };
+        run.traces_validated += 1;
+        run.outcome(&format!("real:{}", o.real.name()));
+        run.outcome(&format!("m2:{}", o.m2.name()));
+        let e = class_hist.entry(t.class.clone()).or_insert([0; 3]);
+        e[match o.real {
+            Side::Accept => 0,
+            Side::Reject => 1,
+            _ => 2,
+        }] += 1;
+        if o.real.decoded() && o.m2.decoded() {
+            run.nontrivial(o.hash);
+        }
+        // non-vacuity of the accept side: either verifier accepting counts (a
+        // disagreement is reported as a violation below, not as a tripped gate)
+        if (o.real.accepts() || o.m2.accepts()) && t.class == "honest" {
+            *accepts.entry((t.vcirc, t.ver.name())).or_insert(0) += 1;
+        }
+        if let Mutn::Flip(bit) = t.m {
+            if o.real == Side::Reject && o.m2 == Side::Reject {
+                decodable_rejected_flip[m2::field_of_byte(bit / 8)] += 1;
+            }
+        }
+        if run.transitions % 9973 == 1 {
+            run.sample(json!({"circuit": circs[t.vcirc].name, "version": t.ver.name(), "class": t.class, "what": t.what, "real": o.real.name(), "m2": o.m2.name()}));
+        }
+        let tag = if t.class == "honest" || t.class == "matrix" || t.class == "xver" { format!("{}={}", if t.class == "honest" { "circuit" } else { "what" }, t.what) } else { format!("field={}", t.what) };
+        if let Side::Panic(msg) = &o.real {
+            run.violation(
+                &format!("panic/{}/{}/ver={}", t.class, tag, t.ver.name()),
+                &format!("real verifier panicked: {}", msg),
+                case_json(t, &circs, &honest),
+            );
+            continue;
+        }
+        if o.real.decoded() != o.m2.decoded() {
+            run.violation(
+                &format!("decode/{}/{}/real={}/m2={}", t.class, tag, if o.real.decoded() { "decodes" } else { "refuses" }, if o.m2.decoded() { "decodes" } else { "refuses" }),
+                "Proof::from_bytes and the reference decoder disagree on these proof bytes",
+                case_json(t, &circs, &honest),
+            );
+        }
+        if o.real.accepts() != o.m2.accepts() {
+            run.violation(
+                &format!("{}/{}/real={}/m2={}/ver={}", t.class, tag, o.real.name(), o.m2.name(), t.ver.name()),
+                &format!("circuit {}: real verifier says {} but the reference verifier says {}", circs[t.vcirc].name, o.real.name(), o.m2.name()),
+                case_json(t, &circs, &honest),
+            );
+        }
+    }
+    // A failed V1 derivation means M2's transcript is not the prover's; that must
+    // already have shown up as a disagreement on the V2/V3 proofs.
+    if !notes.is_empty() {
+        run.extra.insert("v1_derivation_failures".into(), json!(notes));
+        if run.violations + run.known == 0 {
+            run.machinery(format!("V1 proof derivation failed without any reported disagreement: {}", notes[0]));
+        }
+    }
+    for ci in 0..circs.len() {
+        for ver in VERSIONS {
+            if !honest[find(&honest, ci, ver, 0)].ok {
+                continue;
+            }
+            let n = accepts.get(&(ci, ver.name())).copied().unwrap_or(0);
+            run.gate(&format!(">=1 honest proof of {} accepted under {}", circs[ci].name, ver.name()), n > 0);
+        }
+    }
+    for f in 0..m2::N_FIELDS {
+        run.gate(&format!(">=1 decodable-but-rejected bit flip in field {}", m2::field_name(f)), decodable_rejected_flip[f] > 0);
+    }
+    run.extra.insert("decodable_rejected_flips_per_field".into(), json!((0..m2::N_FIELDS).map(|f| (m2::field_name(f).to_string(), decodable_rejected_flip[f])).collect::<std::collections::BTreeMap<_, _>>()));
+    run.extra.insert("real_accept_reject_undecodable_per_class".into(), json!(class_hist));
+    run.assumptions = vec![
+        "M2 (Appendix A.2/A.3) is the statement of the protocol; its trusted base is dusk-bls12_381 arithmetic/pairing/point decoding and merlin".into(),
+        "a challenge z landing in the evaluation domain (prob ~2^-246) does not occur: M2 rejects every domain point, the code only z=1 and rows carrying a non-zero public input".into(),
+        "V1 honest proofs are derived from V2 proofs by the harness (the crate cannot prove under V1)".into(),
+    ];
+    run.finish()
 }
